@@ -83,60 +83,80 @@ T_R3 = "CFG dominance / guard-or-forward analysis over MIR in dev and release co
 PROPS = {
     "C01": {
         "clauses": [fam("Add", "Sub"), signed("Add", "Sub"), both(r3.check_underflow_asserts), r3.check_checked_sub, r3.check_add2_carry_used, r3.check_underflow_check_sees_all_digits, r3.check_panic_site_table, r4.check_block_loops, r4.check_block_loop_callers, r5check.check_arithmetic({"Add", "Sub"}, 30), count_ok("biguint/addition.rs", "biguint/subtraction.rs", "bigint/addition.rs", "bigint/subtraction.rs", floor=70), r1.check_biguint_normal_form],
-        "not_decided": "the scalar tail's adc/sbb arithmetic, carry propagation into the longer operand, result growth",
+        "not_decided": "the digit arithmetic itself: adc/sbb of the scalar tail, how far a carry or borrow ripples into the longer operand, result growth (a seeded lost "
+        "ripple inside `&a - b` is not detected)",
         "level_text": "Decides structural necessary conditions for every input: the two x86_64 block loops are well-formed carry chains (template data flow, addressing, "
-        "counter = len/5, carry preserved to setc, add/sub agree) and hand (carry, done) to the scalar tail; all + and - operator forms forward with operands in order (never swapped for -), "
-        "the underflow assertions of sub2/sub2rev are mandatory in release builds and test both the final borrow and the subtrahend's high digits, "
-        "checked_sub returns None exactly on Less and subtracts only on Greater, and no call site drops the carry returned by __add2.",
+        "counter = len/5, carry preserved to setc, add/sub agree) and hand (carry, done) to the scalar tail; all + and - operator forms forward with operands "
+        "in order (never swapped for -) or are reviewed implementations whose sign/zero/order case analysis is checked against a +/- by abstract interpretation "
+        "for all magnitudes; the underflow assertions of sub2/sub2rev are mandatory in release builds, test both the final borrow and the subtrahend's high "
+        "digits and see all digits of the subtrahend; checked_sub returns None exactly on Less and subtracts only on Greater; no call site drops the "
+        "carry/borrow returned by __add2, adc, sbb or __sub2rev; results escape in canonical form; no digit count is truncated by a cast.",
         "technique": T_R2 + "; " + T_R3,
     },
     "C02": {
         "clauses": [fam("Mul"), signed("Mul"), both(r3.check_underflow_asserts), r3.check_add2_carry_used, r8.check_cost_general, r8.check_shorter_first, r5check.check_arithmetic({"Mul"}, 15), count_ok("biguint/multiplication.rs", "bigint/multiplication.rs", floor=40), r1.check_biguint_normal_form],
-        "not_decided": "temporary sizing, the Karatsuba/Toom-3 algebra, mac_with_carry arithmetic, the power-of-two shortcut (all value-level)",
-        "level_text": "Decides: all Mul operator forms forward with operands in either order only because * is commutative, or are reviewed implementations; the carry-overflow "
-        "assertion of mac_digit is mandatory in release builds and tests the carry returned by __add2; no call site drops a carry; the regime dispatch has a "
-        "base case (no recursive product at or below the schoolbook threshold).",
+        "not_decided": "temporary sizing, the Karatsuba/Toom-3 algebra (evaluation points, interpolation), mac_with_carry arithmetic, the low-zero stripping arithmetic (all "
+        "value-level)",
+        "level_text": "Decides: all Mul operator forms forward (operands in either order only because * is commutative) or are reviewed implementations with the sign table "
+        "checked for all magnitudes; the carry-overflow assertion of mac_digit is mandatory in release builds and tests the carry returned by __add2; no call "
+        "site drops a carry; the regime dispatch read from mac3 has a base case, passes the shorter operand first and yields a cost recurrence inside the "
+        "documented bounds; the multiplication never reaches the multi-digit division; results escape in canonical form.",
         "technique": T_R2 + "; " + T_R3 + "; regime extraction from mac3",
     },
     "C03": {
         "clauses": [fam("Div", "Rem"), signed("Div", "Rem"), both(r3.check_div_guards), r3.check_checked_div, r3.check_division_sites, r5check.check_arithmetic({"Div", "Rem"}, 30), r5check.check_division_methods, count_ok("biguint/division.rs", "bigint/division.rs", floor=90), r1.check_biguint_normal_form],
-        "not_decided": "Knuth algorithm D (trial digit, add-back), normalisation shifts, single-digit loops",
-        "level_text": "Decides for every input: each of the ~390 division-family functions either tests its divisor for zero with a release-mode panic before any "
-        "division work or forwards the divisor to another division function; the 9 checked division functions return None on the zero edge and reach a "
-        "division only behind the non-zero edge; all Div/Rem operator forms forward with operands in order; every internal division call site divides by a "
-        "provably non-zero value.",
+        "not_decided": "Knuth algorithm D (trial digit, add-back), normalisation shifts, the single-digit division loops",
+        "level_text": "Decides for every input: each of the ~390 division-family functions either tests its divisor for zero with a release-mode panic before any division "
+        "work or forwards the divisor to another division function; the 9 checked division functions return None on the zero edge and reach a division only "
+        "behind the non-zero edge; all Div/Rem operator forms forward with operands in order; every internal division call site divides by a provably non-zero "
+        "value; and - given exact magnitude division - the truncated, floored and Euclidean conventions (div_rem, div_floor, mod_floor, div_mod_floor, "
+        "div_euclid, rem_euclid, div_ceil and the checked forms) return the mathematically defined quotient/remainder terms in every sign/zero/remainder case "
+        "(abstract interpretation, polynomial normal form).",
         "technique": T_R3 + "; " + T_R2,
     },
     "C05": {
         "clauses": [guards("modulus", "exponent"), r3.check_parity_dispatch, r3.check_residue_complement, r3.check_division_sites, r3.check_add2_carry_used, both(r3.check_underflow_asserts), r1.check_biguint_normal_form, r5check.check_modular, count_ok("biguint/monty.rs", "biguint/power.rs", "bigint/power.rs", "biguint.rs", "bigint.rs", floor=100)],
-        "not_decided": "Montgomery arithmetic, inv_mod_alt, window walk, plain_modpow, extended Euclid",
-        "level_text": "Decides: zero-modulus and negative-exponent guards exist in release builds and dominate the computation; the Montgomery path is entered only "
-        "behind is_odd(modulus); every modulus-minus-residue complement in modpow/modinv/mod_floor is guarded by residue != 0 (the clause that exposed "
-        "the modinv defect for |modulus| = 1); reductions divide by the guarded modulus.",
+        "not_decided": "Montgomery arithmetic (montgomery, inv_mod_alt, the window walk), plain_modpow's squaring schedule, extended Euclid; padding of the base to the "
+        "modulus length",
+        "level_text": "Decides: zero-modulus and negative-exponent guards exist in release builds and dominate the computation; the Montgomery path is entered only behind "
+        "is_odd(modulus); every modulus-minus-residue complement in modpow/modinv/mod_floor is guarded by residue != 0 (the clause that exposed the modinv "
+        "defect for |modulus| = 1); reductions divide by the guarded modulus; BigInt::modpow/modinv place the result in the documented interval in every sign "
+        "case given an exact unsigned modpow/modinv (abstract interpretation); monty_modpow's result is normalised before it is compared or returned; no "
+        "carry/borrow is dropped and no digit count is truncated in the modular code.",
         "technique": T_R3,
     },
     "C06": {
         "clauses": [both(r3.check_radix), r3.check_parse_validation_order, r7.check_bases, r7.check_formatters, r9.check_sign_readers, r1.check_biguint_normal_form, count_ok("biguint/convert.rs", "bigint/convert.rs", floor=100)],
-        "not_decided": "bit-regrouping and chunked Horner/division arithmetic, the accept/reject language of the digit classifier, padding (delegated to core::fmt)",
+        "not_decided": "bit-regrouping and chunked Horner/division arithmetic, the accept/reject language of the digit classifier beyond the validation order, padding "
+        "(delegated to core::fmt)",
         "level_text": "Decides: all 14 radix-taking entry points (7 per type) enforce their documented range - 2..=36 for text, 2..=256 for digit vectors - by a non-debug "
-        "assertion of their own or of the callee they forward the radix to, constants read from the MIR comparison operands, in dev and release builds; "
-        "both const-evaluated per-radix (base, power) tables are exactly the largest fitting powers for every radix 3..255; the ten formatter impls pass the right "
-        "(non-negativity flag, prefix, radix, magnitude text, upper-casing) to Formatter::pad_integral; BigInt text export reads the sign.",
+        "assertion of their own or of the callee they forward the radix to, constants read from the MIR comparison operands, in dev and release builds; text "
+        "parsing strips the sign before the empty / leading-underscore rejections; both const-evaluated per-radix (base, power) tables are exactly the largest "
+        "fitting powers for every radix 3..255; the ten formatter impls pass the right (non-negativity flag, prefix, radix, magnitude text, upper-casing) to "
+        "Formatter::pad_integral; BigInt text export reads the sign; parsed values escape in canonical form.",
         "technique": T_R3 + " with interprocedural radix-range summaries; const-evaluated static tables read from the compiler; MIR argument-provenance tables",
     },
     "C07": {
         "clauses": [guards("shift"), fam("Shl", "Shr", "BitAnd", "BitOr", "BitXor"), r5check.check_helpers, r5check.check_shifts, r5check.check_bitops, count_ok("biguint/shift.rs", "bigint/shift.rs", "biguint/bits.rs", "bigint/bits.rs", "biguint.rs", "bigint.rs", floor=100), r1.check_biguint_normal_form],
-        "not_decided": "running two's-complement carries, intra-digit shifts, bit queries",
+        "not_decided": "running two's-complement carries and result lengths inside the nine bit helpers, intra-digit shift arithmetic, bit queries (bit, trailing_zeros, "
+        "count_ones) and set_bit's digit arithmetic",
         "level_text": "Decides: the negative-shift panic precedes everything else in biguint_shl/biguint_shr in release builds (comparison against T::zero() on the shift "
-        "amount); every shift/bit operator form is a verified forwarder or a reviewed implementation.",
+        "amount); every shift/bit operator form is a verified forwarder or a reviewed implementation; for all 72 BigInt shift leaves the result is sign * (|a| "
+        "<< k) resp. floor semantics via shr_round_down (interpreted, including the default for amounts that do not fit u64) in every sign case; the BigInt "
+        "bit-operator leaves give the result the sign that the operator yields on the operands' sign bits, handle zero operands and return canonical values.",
         "technique": T_R3 + "; " + T_R2,
     },
     "C04": {
         "clauses": [r1.check_closed_world, r1.check_biguint_normal_form, r1.check_normalize_body, r7.check_serde_tables, r9.check_eq_ord_hash, r9.check_sign_readers, r5check.check_helpers, r5check.check_constructors, r5check.check_shifts],
-        "not_decided": "canonical form at every exported boundary (planned R1 typestate); cmp_slice's most-significant-first iteration order",
-        "level_text": "Decides (release code only, debug assertions excluded): Eq/Ord/Hash of BigInt read sign and magnitude of every operand, of BigUint the digit vector; Hash reads "
-        "only components that Eq compares; cmp_slice consults both lengths and both contents; sign-dependent exporters read the sign.",
-        "technique": "interprocedural field read-set analysis over MIR (necessity rule: a result that depends on a component must read it)",
+        "not_decided": "cmp_slice's most-significant-first iteration order; canonical form of values produced by the 12 reviewed arithmetic writers (argued value-level, "
+        "listed in the evidence)",
+        "level_text": "Decides: the representation is written only inside the crate's closed set of writer functions (no public field, no foreign writer, feature modules "
+        "included); every BigUint that escapes a writer passes normalize/normalized/biguint_from_vec after its last denormalising write on every path and is "
+        "not read as a number before that; normalize strips all high zeros; every BigInt result of the ~260 interpreted bodies has NoSign exactly for zero "
+        "magnitude; serde rebuilds BigInt through the canonicalising constructor; Eq/Ord/Hash of BigInt read sign and magnitude of every operand, of BigUint "
+        "the digit vector; Hash reads only components that Eq compares; cmp_slice consults both lengths and both contents.",
+        "technique": "must-pass-through (dominance) analysis of canonicalisation over MIR with a closed-world writer inventory; interprocedural field read-set analysis; "
+        "abstract interpretation over the sign domain for BigInt results",
     },
     "C08": {
         "clauses": [r5check.check_conversions, r5check.check_tryfrom_err_carries_input, r5check.check_float_guard, _conv_narrowing, count_ok("biguint/convert.rs", "bigint/convert.rs", floor=100)],
@@ -149,9 +169,11 @@ PROPS = {
     },
     "C09": {
         "clauses": [r9.check_iterators, r9.check_iterator_write_sets, r9.check_sign_readers, r5check.check_constructors, r1.check_biguint_normal_form, count_ok("biguint/convert.rs", "bigint/convert.rs", "biguint/iter.rs", floor=100)],
-        "not_decided": "byte regrouping arithmetic, two's-complement byte loops, iterator value sequences beyond the read-set condition; importer normalisation (planned R1)",
-        "level_text": "Decides: every U32Digits cursor method (next, next_back, len, last, count, size_hint) consults all three cursor fields, directly or through the cursor methods "
-        "it calls (the rule that exposed the U32Digits::last defect); U64Digits methods delegate to the slice iterator; signed-byte exporters read the sign.",
+        "not_decided": "byte regrouping arithmetic, two's-complement byte loops, the value sequences of the iterators beyond the read/write-set conditions",
+        "level_text": "Decides: every U32Digits cursor method (next, next_back, len, last, count, size_hint) consults all three cursor fields, directly or through the cursor "
+        "methods it calls (the rule that exposed the U32Digits::last defect), and next/next_back update all three; U64Digits methods delegate to the slice "
+        "iterator; signed-byte exporters read the sign; importers (from_bytes_*, from_slice, new, from_signed_bytes_*) return canonical values with the sign "
+        "placed as documented.",
         "technique": "interprocedural field read-set analysis over MIR (necessity rule)",
     },
     "C10": {
@@ -231,7 +253,7 @@ PROPS = {
     },
     "C17": {
         "clauses": [r7.check_serde_tables, r6.check_feature_stability, r1.check_biguint_normal_form],
-        "not_decided": "the u64 -> (lo, hi) split arithmetic and pair re-join; canonicalisation of deserialised digits (planned R1)",
+        "not_decided": "the u64 -> (lo, hi) split arithmetic and pair re-join",
         "level_text": "Decides: Sign serialises as the i8 -1/0/1 and deserialises by the inverse table with an Err arm for every other byte (switch targets and promoted "
         "constants read from MIR); BigInt <-> the pair (sign, magnitude) in this order, rebuilt through the canonicalising from_biguint; pre-allocation from "
         "size hints is capped; the declared sequence length and the conditional emission of the last high half test the same value; enabling serde changes no other function.",
@@ -239,7 +261,8 @@ PROPS = {
     },
     "C19": {
         "clauses": [r5check.check_helpers, r5check.check_constructors, r5check.check_arithmetic({"Mul"}, 15)],
-        "not_decided": "is_zero <=> empty digit vector relies on the canonical-form invariant (planned R1); from_biguint's own body (calls into digit-level code) is used as a model, its table is checked separately",
+        "not_decided": "is_zero <=> empty digit vector relies on the canonical-form invariant (R1, claimed under C04); from_biguint's own body (calls into digit-level code) "
+        "is used as a model, its table is checked separately",
         "level_text": "Decides essentially the whole property, because it is finite: an abstract interpreter enumerates every sign case (and order / zero-ness case on demand) of "
         "Neg for Sign, Mul<Sign>, Neg, Not, abs, signum, is_positive, is_negative, abs_sub, sign, magnitude, into_parts, zero/one/default, set_zero, Ord, PartialEq, "
         "to_biguint / to_bigint / From<BigUint>, inc, dec and compares the returned term with the mathematical definition by polynomial normal form - for all magnitudes at once.",
